@@ -4,7 +4,7 @@
      env    = signs, objective (call -> Ok costs | Transient | Fatal), constraints, re-roll oracle
      state  = heap of designs, problem.individuals, problem.failed, sync log, objective call log
    All statements hold for every number type T, every order / zero of the feasibility test, every
-   round7 / smul, every env (objective, constraint function, fault schedule, re-roll oracle). *)
+   roundp / smul (roundp p = rounding to the design's stored precision features["precision"] = iprec), every env (objective, constraint function, fault schedule, re-roll oracle). *)
 From Coq Require Import List ZArith Bool QArith Qabs.
 From Artap Require Import Base.Ord Base.QInst Model.Job Model.Dominance Proofs.JobProofs.
 Import ListNotations.
@@ -14,13 +14,13 @@ Section C05.
   Variable T : Type.
   Variable ltb : T -> T -> bool.
   Variable zero : T.
-  Variable round7 : T -> T.
+  Variable roundp : nat -> T -> T.
   Variable smul : bool -> T -> T.
-  Notation evaluate_serial := (evaluate_serial ltb zero round7 smul).
-  Notation evaluate_history := (evaluate_history ltb zero round7 smul).
-  Notation evaluate_scalar := (evaluate_scalar ltb zero round7 smul).
-  Notation sweep := (sweep ltb zero round7 smul).
-  Notation reach := (reach T ltb zero round7 smul).
+  Notation evaluate_serial := (evaluate_serial ltb zero roundp smul).
+  Notation evaluate_history := (evaluate_history ltb zero roundp smul).
+  Notation evaluate_scalar := (evaluate_scalar ltb zero roundp smul).
+  Notation sweep := (sweep ltb zero roundp smul).
+  Notation reach := (reach T ltb zero roundp smul).
 
   (* One Algorithm.evaluate that returns: exactly one successful objective call for every design of the
      batch that was EMPTY (repeats and aliasing in the batch included), made for the vector the design
@@ -36,7 +36,7 @@ Section C05.
              exists c costs, okc e id cs = [c] /\ e_obj e c = Ok costs /\ c_vec c = ivec i' /\
                              icosts i' = costs /\ istate i' = Evaluated) /\
           (istate i <> Empty \/ ~ In id batch -> i' = i /\ calls_of id cs = []).
-  Proof. exact (evaluate_once T ltb zero round7 smul). Qed.
+  Proof. exact (evaluate_once T ltb zero roundp smul). Qed.
 
   (* Any number of evaluate calls on any batches (the caller may catch what they raise): a design that
      was evaluated to begin with is never passed to the objective and never changes; every other design
@@ -52,27 +52,27 @@ Section C05.
           | _ => (okc e id cs = [] /\ istate i <> Evaluated) \/
                  (exists c costs, okc e id cs = [c] /\ e_obj e c = Ok costs /\ c_vec c = ivec i /\
                     icosts i = costs /\ istate i = Evaluated /\
-                    isigned i = Some (signed_costs round7 smul (e_signs e) costs (ifeas i)) /\
+                    isigned i = Some (signed_costs roundp smul (iprec i) (e_signs e) costs (ifeas i)) /\
                     (e_cons e (ivec i) <> [] -> ifeas i = forallb (fun g => ltb g zero) (e_cons e (ivec i))))
           end.
-  Proof. exact (evaluate_once_history T ltb zero round7 smul). Qed.
+  Proof. exact (evaluate_once_history T ltb zero roundp smul). Qed.
 
   (* The same over every history that also contains scalar queries and sweeps (`reach`). *)
   Theorem C05_evaluate_once_all_histories : forall (e : env T) st0 st cs id i,
     reach e st0 st cs -> nth_error (s_heap st) id = Some i ->
     (forall i0, nth_error (s_heap st0) id = Some i0 -> istate i0 <> Evaluated) ->
-    (okc e id cs = [] /\ istate i <> Evaluated) \/ evaluated_by T ltb zero round7 smul e id cs i.
-  Proof. exact (reach_once T ltb zero round7 smul). Qed.
+    (okc e id cs = [] /\ istate i <> Evaluated) \/ evaluated_by T ltb zero roundp smul e id cs i.
+  Proof. exact (reach_once T ltb zero roundp smul). Qed.
 
   Theorem C05_evaluated_design_untouched : forall (e : env T) st0 st cs id i0,
     reach e st0 st cs -> nth_error (s_heap st0) id = Some i0 -> istate i0 = Evaluated ->
     nth_error (s_heap st) id = Some i0 /\ calls_of id cs = [].
-  Proof. exact (reach_evaluated_untouched T ltb zero round7 smul). Qed.
+  Proof. exact (reach_evaluated_untouched T ltb zero roundp smul). Qed.
 
   (* evaluating the same batch again invokes nothing and changes nothing *)
   Theorem C05_repeated_evaluate_adds_no_call : forall (e : env T) st batch st',
     evaluate_serial e st batch = (st', Done) -> evaluate_serial e st' batch = (st', Done).
-  Proof. exact (repeated_evaluate_noop T ltb zero round7 smul). Qed.
+  Proof. exact (repeated_evaluate_noop T ltb zero roundp smul). Qed.
 
   (* stored costs are what the objective returned for the stored vector (also after re-rolls), and
      that call is the design's only successful one *)
@@ -81,27 +81,33 @@ Section C05.
     (forall i0, nth_error (s_heap st0) id = Some i0 -> istate i0 <> Evaluated) ->
     exists c, In c cs /\ c_id c = id /\ c_vec c = ivec i /\ e_obj e c = Ok (icosts i) /\
               (forall c', In c' cs -> c_id c' = id -> ok_b e c' = true -> c' = c).
-  Proof. exact (costs_belong_to_vector T ltb zero round7 smul). Qed.
+  Proof. exact (costs_belong_to_vector T ltb zero roundp smul). Qed.
 
-  (* signed costs = sign * round7(cost) objective by objective (zip semantics), then the marker
-     `not feasible`; with at least one constraint, feasible = all(g < 0) for the stored vector *)
+  (* signed costs = sign * round(cost, stored precision) objective by objective (zip semantics), then
+     the marker `not feasible`; with at least one constraint, feasible = all(g < 0) for the stored vector *)
   Theorem C05_signed_costs_spec : forall (e : env T) st0 st cs id i,
     reach e st0 st cs -> nth_error (s_heap st) id = Some i -> istate i = Evaluated ->
     (forall i0, nth_error (s_heap st0) id = Some i0 -> istate i0 <> Evaluated) ->
-    isigned i = Some (map2 (fun s c => smul s (round7 c)) (e_signs e) (icosts i), negb (ifeas i)) /\
+    isigned i = Some (map2 (fun s c => smul s (roundp (iprec i) c)) (e_signs e) (icosts i), negb (ifeas i)) /\
     (e_cons e (ivec i) <> [] -> ifeas i = forallb (fun g => ltb g zero) (e_cons e (ivec i))).
-  Proof. exact (signed_costs_spec T ltb zero round7 smul). Qed.
+  Proof. exact (signed_costs_spec T ltb zero roundp smul). Qed.
+
+  (* the stored precision is the one the design had at the start (7 for designs created by artap) *)
+  Theorem C05_stored_precision_kept : forall (e : env T) st0 st cs id i,
+    reach e st0 st cs -> nth_error (s_heap st) id = Some i ->
+    iprec i = match nth_error (s_heap st0) id with Some i0 => iprec i0 | None => 7 end.
+  Proof. exact (reach_iprec T ltb zero roundp smul). Qed.
 
   (* composed with C01's marker precedence (Proofs/DominanceProofs.v): whatever the objective values,
      a design satisfying all constraints dominates one violating some *)
-  Theorem C05_marker_ranks_feasible_first : forall (cltb : T -> T -> bool) signs ca cb fa fb ga gb,
+  Theorem C05_marker_ranks_feasible_first : forall (cltb : T -> T -> bool) pa pb signs ca cb fa fb ga gb,
     ga <> [] -> forallb (fun g => ltb g zero) ga = true ->
     gb <> [] -> forallb (fun g => ltb g zero) gb = false ->
-    let sa := signed_costs round7 smul signs ca (feasible_of ltb zero fa ga) in
-    let sb := signed_costs round7 smul signs cb (feasible_of ltb zero fb gb) in
+    let sa := signed_costs roundp smul pa signs ca (feasible_of ltb zero fa ga) in
+    let sb := signed_costs roundp smul pb signs cb (feasible_of ltb zero fb gb) in
     pareto_compare cltb (fst sa, Z.b2z (snd sa)) (fst sb, Z.b2z (snd sb)) = 1 /\
     pareto_compare cltb (fst sb, Z.b2z (snd sb)) (fst sa, Z.b2z (snd sa)) = 2.
-  Proof. exact (marker_ranks_feasible_first T ltb zero round7 smul). Qed.
+  Proof. exact (marker_ranks_feasible_first T ltb zero roundp smul). Qed.
 
   (* SweepAlgorithm: the generator's designs are appended to problem.individuals in order, older
      designs are untouched, every objective call is for one of the new designs; when the sweep returns,
@@ -119,24 +125,24 @@ Section C05.
          map (@c_id T) (filter (ok_b e) cs) = seq n (length vs) /\
          map (@c_vec T) (filter (fun c => c_att c =? 0) cs) = vs /\
          forall k, k < length vs -> exists i, nth_error (s_heap st') (n + k) = Some i /\ istate i = Evaluated).
-  Proof. exact (sweep_order T ltb zero round7 smul). Qed.
+  Proof. exact (sweep_order T ltb zero roundp smul). Qed.
 
   (* Evaluator.evaluate_scalar(x) when the objective answers: the point x is recorded in
      problem.individuals with its true costs, EVALUATED, synced once; the optimiser receives
-     sign_0 * round7(cost_0) (the marker if the problem has no objective) *)
+     sign_0 * round(cost_0, 7) (the marker if the problem has no objective; a new Individual has precision 7) *)
   Theorem C05_scalar_bridge : forall (e : env T) st x costs,
     let id := length (s_heap st) in
     let c := mkcall (length (s_calls st)) id 0 x in
     e_obj e c = Ok costs ->
-    let i' := evaluated_ind T ltb zero round7 smul e false x costs in
+    let i' := evaluated_ind T ltb zero roundp smul e 7 false x costs in
     evaluate_scalar e st x =
       ({| s_heap := s_heap st ++ [i']; s_pop := s_pop st ++ [id]; s_failed := s_failed st;
           s_store := s_store st ++ [(id, i')]; s_calls := s_calls st ++ [c] |},
-       match map2 (fun s k => smul s (round7 k)) (e_signs e) costs with
+       match map2 (fun s k => smul s (roundp 7 k)) (e_signs e) costs with
        | y :: _ => SVal y
        | [] => SMark (negb (feasible_of ltb zero false (e_cons e x)))
        end).
-  Proof. exact (scalar_bridge T ltb zero round7 smul). Qed.
+  Proof. exact (scalar_bridge T ltb zero roundp smul). Qed.
 
   (* whatever happened inside (re-rolls included): a returned number is sign_0 * round7 of the first
      recorded cost of the design that was recorded for this query, and that cost is the objective's
@@ -147,17 +153,22 @@ Section C05.
     exists i c cs, s_calls st' = s_calls st ++ cs /\ In c cs /\ s_pop st' = s_pop st ++ [id] /\
       nth_error (s_heap st') id = Some i /\ istate i = Evaluated /\
       c_id c = id /\ c_vec c = ivec i /\ e_obj e c = Ok (icosts i) /\
-      exists s0 ss c0 cc, e_signs e = s0 :: ss /\ icosts i = c0 :: cc /\ y = smul s0 (round7 c0).
-  Proof. exact (scalar_bridge_general T ltb zero round7 smul). Qed.
+      exists s0 ss c0 cc, e_signs e = s0 :: ss /\ icosts i = c0 :: cc /\ y = smul s0 (roundp (iprec i) c0) /\ iprec i = 7.
+  Proof. exact (scalar_bridge_general T ltb zero roundp smul). Qed.
 End C05.
 
-(* "rounded to the stored precision": the rational instance of round7 (round half to even at the
-   seventh decimal) moves a value by at most 5e-8 and fixes every value with at most 7 decimals *)
+(* "rounded to the stored precision": the rational instance of roundp (round half to even at the p-th
+   decimal) moves a value by at most half a unit of the p-th decimal (5e-8 for the default 7) and fixes
+   every value with at most p decimals *)
+Theorem C05_roundp_q_precision : forall (p : nat) (y : Q), (Qabs (qroundp p y - y) <= (1 # 2) / q_pow10 p)%Q.
+Proof. exact qroundp_precision. Qed.
+
 Theorem C05_round7_q_precision : forall y : Q, (Qabs (qround7 y - y) <= 1 # 20000000)%Q.
 Proof. exact qround7_precision. Qed.
 
-Theorem C05_round7_q_fixpoint : forall k : Z, (qround7 (inject_Z k / 10000000) == inject_Z k / 10000000)%Q.
-Proof. exact qround7_fixpoint. Qed.
+Theorem C05_roundp_q_fixpoint : forall (p : nat) (k : Z),
+  (qroundp p (inject_Z k / q_pow10 p) == inject_Z k / q_pow10 p)%Q.
+Proof. exact qroundp_fixpoint. Qed.
 
 Print Assumptions C05_evaluate_once.
 Print Assumptions C05_evaluate_once_history.
@@ -171,7 +182,9 @@ Print Assumptions C05_sweep_order.
 Print Assumptions C05_scalar_bridge.
 Print Assumptions C05_scalar_bridge_general.
 Print Assumptions C05_round7_q_precision.
-Print Assumptions C05_round7_q_fixpoint.
+Print Assumptions C05_roundp_q_precision.
+Print Assumptions C05_roundp_q_fixpoint.
+Print Assumptions C05_stored_precision_kept.
 
 (* ---------------------------------------------------------------------------------------------
    non-vacuity: a concrete problem over Q (two objectives: minimise, maximise; one constraint
@@ -186,13 +199,13 @@ Definition exQ_env : env Q :=
      e_reroll := fun _ => [5] |}.
 
 Definition exQ_junk : ind Q :=
-  {| ivec := [9]; icosts := [1; 1]; isigned := Some ([1; 1], false); istate := Evaluated; ifeas := true |}.
+  {| ivec := [9]; icosts := [1; 1]; isigned := Some ([1; 1], false); istate := Evaluated; ifeas := true; iprec := 7 |}.
 
 Definition exQ_st0 : state Q :=
   {| s_heap := [fresh [1]; exQ_junk; fresh [3]; fresh [0]]; s_pop := []; s_failed := []; s_store := [];
      s_calls := [] |}.
 
-Definition exQ_run := evaluate_serial Qltb 0 qround7 qsmul exQ_env exQ_st0 [0; 1; 2; 0; 2]%nat.
+Definition exQ_run := evaluate_serial Qltb 0 qroundp qsmul exQ_env exQ_st0 [0; 1; 2; 0; 2]%nat.
 
 (* the batch [new, evaluated, new, same new again, ...] returns; calls: design 0 once, design 2 twice
    (first attempt fails), none for the evaluated design 1 and for design 3 (not in the batch) *)
@@ -203,7 +216,7 @@ Example C05_ex_batch :
   nth_error (s_heap (fst exQ_run)) 1 = Some exQ_junk /\
   map (@ivec Q) (s_failed (fst exQ_run)) = [[3]] /\
   (* the hypotheses of the theorems are met: the run is a reachable history *)
-  reach Q Qltb 0 qround7 qsmul exQ_env exQ_st0 (fst exQ_run) (s_calls (fst exQ_run)).
+  reach Q Qltb 0 qroundp qsmul exQ_env exQ_st0 (fst exQ_run) (s_calls (fst exQ_run)).
 Proof.
   repeat split; try (vm_compute; reflexivity).
   change (s_calls (fst exQ_run)) with ([] ++ s_calls (fst exQ_run)).
@@ -232,11 +245,11 @@ Proof. vm_compute. repeat split; reflexivity. Qed.
 Example C05_ex_scalar_sweep :
   let e := {| e_signs := [true]; e_obj := fun c => Ok [hd 0 (c_vec c) * (1 # 3)]; e_cons := fun _ => [];
               e_reroll := fun _ => [0] |} in
-  (match evaluate_scalar Qltb 0 qround7 qsmul e init_state [2] with
+  (match evaluate_scalar Qltb 0 qroundp qsmul e init_state [2] with
    | (st, SVal y) => y == - (6666667 # 10000000) /\ s_pop st = [0%nat] /\
                      map (@icosts Q) (s_heap st) = [[2 * (1 # 3)]]
    | _ => False end) /\
-  (match sweep Qltb 0 qround7 qsmul e init_state [[1]; [4]; [1]] with
+  (match sweep Qltb 0 qroundp qsmul e init_state [[1]; [4]; [1]] with
    | (st, r) => r = Done /\ map (@c_vec Q) (s_calls st) = [[1]; [4]; [1]] /\ s_pop st = [0; 1; 2]%nat
    end).
 Proof. vm_compute. repeat split; reflexivity. Qed.
